@@ -26,6 +26,8 @@ enum Op {
     IntervalAt(u64, u64, usize), // interval_at(absolute start, period): k ticks without work in between
     IntervalReset(u64, u64),     // interval(p): first tick, sleep(w), reset(), next tick is due one period after the reset
     Abort(u64, u64),             // spawn a sub-task that sleeps d and then logs; abort it after sleeping d0 < d: it must never log
+    TimeoutFar(u64, u8),         // timeout(a duration that is not representable as a deadline, sleep(d)): Ok after d
+    SleepFarInTimeout(u64, u8),  // timeout(d, sleep(such a duration)): Elapsed after d
     Debounce(u64, u64),          // only as a whole task: sleep(d0) that every self-message of the module resets to now + d (d = 2 mod 10)
 }
 
@@ -34,6 +36,8 @@ static LOG: Mutex<Vec<(usize, usize, usize, &'static str, i64, u64)>> = Mutex::n
 
 fn now_ms() -> u64 { SimTime::now().as_micros() as u64 } // all times of this driver are MICROSECONDS (names kept)
 fn ms(d: u64) -> Duration { Duration::from_micros(d) }
+// durations far beyond anything representable as a deadline once the clock has left zero
+fn far(k: u8) -> Duration { match k { 0 => Duration::from_secs(u64::MAX), 1 => Duration::MAX - Duration::from_nanos(1), _ => Duration::MAX } }
 fn at(t: u64) -> SimTime { SimTime::from_duration(ms(t)) }
 fn log(m: usize, t: usize, i: usize, tag: &'static str, v: i64) { LOG.lock().unwrap().push((m, t, i, tag, v, now_ms())); }
 
@@ -73,6 +77,8 @@ async fn run_task(m: usize, t: usize, prog: Vec<Op>, mut rx: tokio::sync::mpsc::
             }
             Op::TimeoutSleep(dt, di) => { let r = timeout(ms(dt), sleep(ms(di))).await; log(m, t, i, "timeout_sleep", r.is_ok() as i64); }
             Op::TimeoutPending(dt) => { let r = timeout(ms(dt), std::future::pending::<()>()).await; log(m, t, i, "timeout_pending", r.is_ok() as i64); }
+            Op::TimeoutFar(di, k) => { let r = timeout(far(k), sleep(ms(di))).await; log(m, t, i, "timeout_far", r.is_ok() as i64); }
+            Op::SleepFarInTimeout(dt, k) => { let r = timeout(ms(dt), sleep(far(k))).await; log(m, t, i, "sleep_far_in_timeout", r.is_ok() as i64); }
             Op::TimeoutAt(x, di) => { let r = timeout_at(at(x), sleep(ms(di))).await; log(m, t, i, "timeout_at", r.is_ok() as i64); }
             Op::IntervalAt(x, p, k) => {
                 let mut iv = interval_at(at(x), ms(p));
@@ -127,6 +133,8 @@ fn expect_task(m: usize, t: usize, prog: &[Op], pings: &[u64]) -> Vec<(usize, us
             Op::Reset(_, d2) => { now += d2; out.push((m, t, i, "reset", 0, now)); }
             Op::TimeoutSleep(dt, di) => { let ok = di <= dt; now += (*dt).min(*di); out.push((m, t, i, "timeout_sleep", ok as i64, now)); }
             Op::TimeoutPending(dt) => { now += dt; out.push((m, t, i, "timeout_pending", 0, now)); }
+            Op::TimeoutFar(di, _) => { now += di; out.push((m, t, i, "timeout_far", 1, now)); }
+            Op::SleepFarInTimeout(dt, _) => { now += dt; out.push((m, t, i, "sleep_far_in_timeout", 0, now)); }
             Op::TimeoutAt(x, di) => { let dl = (*x).max(now); let fin = now + di; let ok = fin <= dl; now = if ok { fin } else { dl }; out.push((m, t, i, "timeout_at", ok as i64, now)); }
             Op::IntervalAt(x, p, k) => {
                 let mut scheduled = *x;
@@ -180,7 +188,9 @@ fn gen_prog(r: &mut dyn FnMut() -> u64) -> Vec<Op> {
     if r() % 5 == 0 { return vec![Op::Debounce((10 + (r() % 5) * 10) * K, (2 + (r() % 5) * 10) * K)]; }
     let n = 1 + (r() % 5) as usize;
     let d = |r: &mut dyn FnMut() -> u64| (r() % 6) * 10 * K;
-    (0..n).map(|_| match r() % 14 {
+    (0..n).map(|_| match r() % 16 {
+        14 => Op::TimeoutFar(d(r), (r() % 3) as u8),
+        15 => Op::SleepFarInTimeout(d(r), (r() % 3) as u8),
         9 => Op::TimeoutAt((r() % 12) * 10 * K, d(r)),
         10 => Op::IntervalAt((r() % 8) * 10 * K, (10 + (r() % 3) * 10) * K, 1 + (r() % 3) as usize),
         11 => Op::IntervalReset((10 + (r() % 3) * 10) * K, (r() % 4) * 10 * K),
